@@ -100,6 +100,25 @@ Example C10_nonvacuous_conflict :
                              [ {| be_ready := Some false; be_serving := None; be_node := Some 0; be_addrs := [1] |} ]] |} = RNoEndpoints.
 Proof. vm_compute. reflexivity. Qed.
 
+(* ---- which endpoint slices the decision is taken on (ServiceReconciler, both paths: the index
+   "<namespace>/<service-name label>"): exactly the slices of the Service's OWN namespace carrying its name;
+   same-named Services of other namespaces never matter; grouping by the bare label would change decisions.
+   slices_for is two lines of model; its weight is the stack correspondence (TestVerifSpkStack: real
+   ServiceReconciler with endpoints on a fake API server, same-named Services in two namespaces, decisions compared
+   after the single-service path and after reprocessAll) *)
+Theorem C10_slices_of_own_namespace_and_name : forall ns name all eps,
+  In eps (slices_for ns name all) <->
+  exists s, In s all /\ ks_ns s = ns /\ ks_label s = Some name /\ ks_eps s = eps.
+Proof. exact slices_for_spec. Qed.
+Theorem C10_other_namespaces_do_not_matter : forall ns name all extra,
+  (forall s, In s extra -> ks_ns s <> ns) -> slices_for ns name (all ++ extra) = slices_for ns name all.
+Proof. exact slices_for_other_namespace. Qed.
+Theorem C10_grouping_by_bare_label_refuted :
+  let v eps := {| bv_advs := [[0]]; bv_node := None; bv_ignore := false; bv_local := false; bv_eps := eps |} in
+  bgp_decide 0 (v (slices_for 0 7 [ks_good; ks_bad])) = RAnnounce /\
+  bgp_decide 0 (v (slices_by_label 7 [ks_good; ks_bad])) = RNoEndpoints.
+Proof. exact slices_by_label_refuted. Qed.
+
 (* non-vacuity of the lifted theorems: a history satisfying their hypotheses in which a Service has BGP
    advertisements and a route on the session of a peer; the node becoming network-unavailable removes both *)
 Example C10_nonvacuous_history :
